@@ -283,6 +283,9 @@ class Driver:
                                   bufsize=1 << 20)
         self.n = 0
 
+    def alive(self) -> bool:
+        return self.p.poll() is None
+
     def ask(self, line: str) -> str:
         assert '\n' not in line
         self.p.stdin.write(line + '\n')
